@@ -72,7 +72,8 @@ def gen_image(rng):
         code += enc(1, 1) + enc(8, 2) + enc(3, stream) + enc(8, 3) + enc(3, 1) + bytes([0xD3]) + enc(0, 150002)
     if rng.random() < 0.4:
         # get(stream): LDAC stream ; STAI 2 ; LDAC 2 ; SVC ; LDAM sp+1 -- console or a simin file (EOF when it does not exist)
-        stream = rng.choice([0, 256, 768])
+        stream = rng.choice([0, 1024, 768])      # file indices 4 (exists) and 3 (missing): never an index the image also writes to --
+        # the reference simulator binds a stream index to one FILE* at first use, so mixing directions on one index is outside the ISA model
         code += enc(1, 1) + enc(3, stream) + enc(8, 2) + enc(3, 2) + bytes([0xD3]) + enc(0, 150001)
     if rng.random() < 0.3:
         code += enc(9, -len(code) - 2) if False else b''
@@ -101,7 +102,8 @@ def main():
                               'Isa.v (zero-memory reference run)', 'extraction + c02drv.ml', 'harness/sim_harness.cpp (placement-new into a patterned buffer, g++ 12)',
                               'the built hexsim executable; setarch -R, MALLOC_PERTURB_, environment size as host-state perturbations']
     ck.assumptions = ['heap/ASLR/stack residue cannot be exhibited by a theorem: that half is correspondence over 4 fill patterns and host perturbations',
-                      'images keep every effective address below 200000 words']
+                      'images keep every effective address below 200000 words',
+                      'a file-stream index is used in one direction only within an image (Isa.v models input and output files independently; the reference simulator binds an index to one FILE* at first use)']
     ok = ck.proofs()
     ck.log('proofs', 'ok' if ok else 'BROKEN')
     hv, log = vlib.ocaml_build()
@@ -140,7 +142,7 @@ def main():
                     bins.append((b, 'xprogram'))
     ip = os.path.join(d, 'in.bin')
     open(ip, 'wb').write(b'hello\n')
-    open(os.path.join(d, 'simin1'), 'wb').write(b'\x90file one')       # stream 256 reads this; stream 768 (simin3) does not exist
+    open(os.path.join(d, 'simin4'), 'wb').write(b'\x90file four')      # stream 1024 reads this; stream 768 (simin3) does not exist
     dist = {}
     distinct = set()
     nbad = 0
